@@ -231,8 +231,8 @@ pub fn profile_for(prop: &str, thorough: bool) -> Profile {
             p.sync_plain = true;
             p.w.get = 34;
             p.w.warm_insert = 12;
-            p.w.sync = 0;
-            p.w.enter_beyond = 0;
+            p.w.sync = 4;
+            p.w.enter_beyond = 4;
             p.w.synced_insert = 0;
             p.w.invalidate_all = 1;
             p.w.invalidate_if = 2;
@@ -489,7 +489,11 @@ pub fn build_case(p: &Profile, rc: RawCfg, raw_ops: Vec<RawOp>) -> Case {
     };
 
     let mut ops: Vec<Op> = Vec::new();
-    let every = (p.sync_every_op || (p.sync_every_op_some && rc.cap_slack % 2 == 0)) && kind == Kind::Sync;
+    // (plain concurrent cases of the C12/C13 domain: half of them run freely, i.e. without a
+    // sync() after every operation; the lock-step model follows them one maintenance run at
+    // a time)
+    let free_running = plain_sync && !sync_with_expiry && rc.hasher % 2 == 0;
+    let every = ((p.sync_every_op && !free_running) || (p.sync_every_op_some && rc.cap_slack % 2 == 0)) && kind == Kind::Sync;
     let push = |ops: &mut Vec<Op>, op: Op| {
         let rec = matches!(op, Op::Insert { .. } | Op::Get { .. } | Op::Invalidate { .. });
         ops.push(op);
@@ -629,6 +633,27 @@ pub fn build_case(p: &Profile, rc: RawCfg, raw_ops: Vec<RawOp>) -> Case {
                     // every third batch writes the same one or two keys repeatedly (a queued
                     // write superseded by another one before maintenance applies either),
                     // after making them popular enough to be admitted
+                    if n % 7 == 6 {
+                        // a (popular) newcomer queued in front of invalidations of residents:
+                        // when maintenance decides the admission, those keys have left the map
+                        // but not yet the LRU queue
+                        let (a, b, c) = (kmap(items[0].0), kmap(items[1].0), kmap(items[2].0));
+                        for _ in 0..(items[1].1 % 4) {
+                            push(&mut ops, Op::Get { k: b });
+                        }
+                        ops.push(Op::EnterBeyond);
+                        ops.push(Op::Insert { k: b, w: wmap(b, items[1].1) });
+                        ops.push(Op::Invalidate { k: a });
+                        if items[2].1 % 2 == 0 {
+                            ops.push(Op::Invalidate { k: c });
+                        }
+                        if items[3].1 % 3 == 0 {
+                            let d = kmap(items[3].0);
+                            ops.push(Op::Insert { k: d, w: wmap(d, items[3].1) });
+                        }
+                        ops.push(Op::Sync);
+                        continue;
+                    }
                     if n % 5 == 4 {
                         // a queued read of a resident, a popular newcomer, and a queued update of
                         // the key that was read, applied by one maintenance run
